@@ -62,6 +62,9 @@ enum ClassAtom {
 struct ClassSet {
     codepoints: CodePointSet,
     alternatives: ClassSetAlternativeStrings,
+    // The static MayContainStrings of the expression parsed so far: whether it may
+    // denote a string which is not exactly one character. Such a class may not be negated.
+    may_contain_strings: bool,
 }
 
 impl ClassSet {
@@ -69,10 +72,28 @@ impl ClassSet {
         ClassSet {
             codepoints: CodePointSet::new(),
             alternatives: ClassSetAlternativeStrings::new(),
+            may_contain_strings: false,
         }
     }
 
-    fn node(self, icase: bool, negate_set: bool) -> ir::Node {
+    // Move strings of exactly one character into the code point set: they are the same element.
+    fn absorb_single_character_strings(&mut self) {
+        let codepoints = &mut self.codepoints;
+        self.alternatives.0.retain(|alt| {
+            if alt.len() == 1 {
+                codepoints.add_one(alt[0]);
+                false
+            } else {
+                true
+            }
+        });
+    }
+
+    fn node(mut self, icase: bool, negate_set: bool) -> ir::Node {
+        self.absorb_single_character_strings();
+        // The empty string is tried last, after the single characters.
+        let has_empty_string = self.alternatives.0.iter().any(|alt| alt.is_empty());
+        self.alternatives.0.retain(|alt| !alt.is_empty());
         let codepoints = if icase {
             // Class sets only exist in `v` mode, which is a Unicode mode.
             unicode::add_icase_code_points(self.codepoints)
@@ -84,16 +105,31 @@ impl ClassSet {
             invert: negate_set,
             cps: codepoints,
         });
-        if self.alternatives.0.is_empty() {
-            bracket
-        } else if codepoints_empty {
-            self.alternatives.into_node(icase)
-        } else {
-            make_alt(Vec::from([self.alternatives.into_node(icase), bracket]))
+        let mut nodes = Vec::new();
+        let has_strings = !self.alternatives.0.is_empty();
+        if has_strings {
+            nodes.push(self.alternatives.into_node(icase));
+        }
+        if !codepoints_empty || negate_set || !(has_strings || has_empty_string) {
+            nodes.push(bracket);
+        }
+        if has_empty_string {
+            nodes.push(ir::Node::Empty);
+        }
+        make_alt(nodes)
+    }
+
+    // Static semantics MayContainStrings of an operand.
+    fn operand_may_contain_strings(operand: &ClassSetOperand) -> bool {
+        match operand {
+            ClassSetOperand::ClassSetCharacter(_) | ClassSetOperand::CharacterClassEscape(_) => false,
+            ClassSetOperand::Class(class) => class.may_contain_strings,
+            ClassSetOperand::ClassStringDisjunction(s) => s.iter().any(|alt| alt.len() != 1),
         }
     }
 
     fn union_operand(&mut self, operand: ClassSetOperand) {
+        self.may_contain_strings |= Self::operand_may_contain_strings(&operand);
         match operand {
             ClassSetOperand::ClassSetCharacter(c) => {
                 self.codepoints.add_one(c);
@@ -112,6 +148,7 @@ impl ClassSet {
     }
 
     fn intersect_operand(&mut self, operand: ClassSetOperand) {
+        self.may_contain_strings &= Self::operand_may_contain_strings(&operand);
         match operand {
             ClassSetOperand::ClassSetCharacter(c) => {
                 if self.codepoints.contains(c) {
@@ -688,10 +725,11 @@ where
                 '[' if self.flags.unicode_sets => {
                     self.consume('[');
                     let negate_set = self.try_consume('^');
-                    result.push(
-                        self.consume_class_set_expression(negate_set)?
-                            .node(self.flags.icase, negate_set),
-                    );
+                    let class_set = self.consume_class_set_expression(negate_set)?;
+                    if negate_set && class_set.may_contain_strings {
+                        return error("Negated class may contain strings");
+                    }
+                    result.push(class_set.node(self.flags.icase, negate_set));
                 }
 
                 '[' => {
@@ -1180,6 +1218,8 @@ where
         in_negated_class: bool,
     ) -> Result<ClassSetOperand, Error> {
         use ClassSetOperand::*;
+        // Whether strings are allowed under a negation is decided by may_contain_strings.
+        let _ = in_negated_class;
         let Some(cp) = self.peek() else {
             return error("Empty class set operand");
         };
@@ -1195,6 +1235,11 @@ where
                 let negate_set = self.try_consume('^');
                 let mut result = self.consume_class_set_expression(negate_set)?;
                 if negate_set {
+                    if result.may_contain_strings {
+                        return error("Negated class may contain strings");
+                    }
+                    result.absorb_single_character_strings();
+                    result.alternatives.0.clear();
                     result.codepoints = result.codepoints.inverted();
                 }
                 self.depth -= 1;
@@ -1222,18 +1267,14 @@ where
                             match self.peek() {
                                 Some(0x7D /* } */) => {
                                     self.consume('}');
-                                    if !alternative.is_empty() {
-                                        alternatives.push(alternative.into_boxed_slice());
-                                    }
+                                    // Note an empty ClassString is allowed: it matches the empty string.
+                                    alternatives.push(alternative.into_boxed_slice());
                                     break;
                                 }
                                 Some(0x7C /* | */) => {
                                     self.consume('|');
-                                    if !alternative.is_empty() {
-                                        let alternative = mem::take(&mut alternative).into_boxed_slice();
-                                        alternatives.push(alternative);
-
-                                    }
+                                    let alternative = mem::take(&mut alternative).into_boxed_slice();
+                                    alternatives.push(alternative);
                                 }
                                 Some(_) => {
                                     alternative.push(self.consume_class_set_character()?);
@@ -1284,7 +1325,6 @@ where
                                     intervals.to_vec(),
                                 )))
                             }
-                            PropertyEscapeKind::StringSet(_) if in_negated_class => error("Invalid character escape"),
                             PropertyEscapeKind::StringSet(strings) => {
                                 Ok(ClassStringDisjunction(ClassSetAlternativeStrings(strings.iter().map(|s| Box::from(*s)).collect())))
                             }
